@@ -644,6 +644,8 @@ pub fn generate(check: &str, tier: &str, seed: u64) -> Scenario {
             sim.num_cpus = 1;
             sim.jitter_extreme_pm = *cr.pick(&[0, 300, 1000]);
             sim.strat = cr.pick(&[Strat::Fifo, Strat::Random(100)]).clone();
+            // in half of the runs timers fire a little late, as real timers always do
+            sim.timer_late_us = *Rng::stream(seed, "c18-timer-late").pick(&[0u64, 0, 30, 700]);
             // sync intervals must stay tractable relative to the observed span
             if let SyncCfg::IntervalMs(d) = cfg.sync {
                 let span_ms = 3.0 * cfg.check_interval_ms as f64 * (1.0 + cfg.jitter);
